@@ -83,55 +83,6 @@ namespace c15
       out[ 8 ] = st0;
    }
 
-   // conversion kernels: out[0] return value, out[1] bits of the result object after the call
-   template< typename T, T Max >
-   inline void step( unsigned long r, unsigned long d, unsigned long* out )
-   {
-      T x = static_cast< T >( r );
-      out[ 0 ] = internal::accumulate_digit< T, Max >( x, static_cast< char >( d ) );
-      out[ 1 ] = raw( x );
-   }
-
-   template< typename T, T Max >
-   inline void digits( const char* b, unsigned long n, unsigned long r, unsigned long* out )
-   {
-      T x = static_cast< T >( r );
-      out[ 0 ] = internal::accumulate_digits< T, Max >( x, std::string_view( b, n ) );
-      out[ 1 ] = raw( x );
-   }
-
-   template< typename T, T Max >
-   inline void cpos( const char* b, unsigned long n, unsigned long r, unsigned long* out )
-   {
-      T x = static_cast< T >( r );
-      out[ 0 ] = internal::convert_positive< T, Max >( x, std::string_view( b, n ) );
-      out[ 1 ] = raw( x );
-   }
-
-   template< typename T, T Max >
-   inline void cuns( const char* b, unsigned long n, unsigned long r, unsigned long* out )
-   {
-      T x = static_cast< T >( r );
-      out[ 0 ] = internal::convert_unsigned< T, Max >( x, std::string_view( b, n ) );
-      out[ 1 ] = raw( x );
-   }
-
-   template< typename T >
-   inline void cneg( const char* b, unsigned long n, unsigned long r, unsigned long* out )
-   {
-      T x = static_cast< T >( r );
-      out[ 0 ] = internal::convert_negative< T >( x, std::string_view( b, n ) );
-      out[ 1 ] = raw( x );
-   }
-
-   template< typename T >
-   inline void csig( const char* b, unsigned long n, unsigned long r, unsigned long* out )
-   {
-      T x = static_cast< T >( r );
-      out[ 0 ] = internal::convert_signed< T >( x, std::string_view( b, n ) );
-      out[ 1 ] = raw( x );
-   }
-
 }  // namespace c15
 
 #define C15_EXPORT extern "C" __attribute__( ( noinline ) )
